@@ -120,6 +120,7 @@ int main(int argc, char **argv) {
       }
       printf(" %s\n", ok ? "ok" : "fail");
     }
+    fflush(stdout);
   }
   return 0;
 }
@@ -287,8 +288,19 @@ def run_codec_tie(ctx):
     res = cpp_build.run_jobs(wd, [cpp_build.CppJob("codec", None, CODEC_DRIVER, run_args=[inp])], timeout=600)["codec"]
     if not res.ok:
         ctx.obligation("codec driver builds and runs", False)
-        ctx.violation("codec-driver:" + res.stage, "codec driver failed at %s: %s" % (res.stage, res.log[-1500:]),
-                      dict(kind="driver", stage=res.stage, log=res.log[-4000:]), found_input=False)
+        if res.stage == "run" and len(res.lines) < len(lines):
+            # the runtime aborted (EMBOSS_CHECK / EMBOSS_DCHECK / signal) on one input: that input is the finding
+            bad_line = lines[len(res.lines)]
+            p = bad_line.split()
+            what = ("WriteIntegerToTextStream<%s>(%s, base %s, digit_grouping %s)" % (p[1], p[4], p[2], p[3]) if p[0] == "E"
+                    else "DecodeInteger<%s>(%r)" % (p[1], bytes.fromhex(p[2]).decode("latin-1") if len(p) > 2 else "") if p[0] == "D"
+                    else "ReadToken on %r" % (bytes.fromhex(p[1]).decode("latin-1") if len(p) > 1 else ""))
+            ctx.violation("codec-crash:" + {"E": "WriteIntegerToTextStream", "D": "DecodeInteger", "T": "ReadToken"}[p[0]],
+                          "%s aborts (exit %s): %s" % (what, res.rc, res.log.strip().splitlines()[0][:300] if res.log.strip() else ""),
+                          dict(kind="codec", line=bad_line, call=what, exit=res.rc, stderr=res.log[-1500:]), found_input=True)
+        else:
+            ctx.violation("codec-driver:" + res.stage, "codec driver failed at %s: %s" % (res.stage, res.log[-1500:]),
+                          dict(kind="driver", stage=res.stage, log=res.log[-4000:]), found_input=False)
         return
     out = res.lines
     _tick(ctx, "codec driver built and run (%d lines)" % len(lines))
@@ -682,8 +694,16 @@ def run_struct_tie(ctx, gt):
         if not res.ok:
             n_build_fail += 1
             ctx.count("build-failed:" + res.stage)
-            ctx.violation("struct-driver:" + res.stage, "module %s failed at %s: %s" % (md["name"], res.stage, res.log[-800:]),
-                          dict(kind="driver", module=md["text"], stage=res.stage, log=res.log[-3000:]), found_input=False)
+            nw = len([l for l in res.lines if l.startswith("W ")])
+            if res.stage == "run" and nw < len(md["meta"]):
+                mt = md["meta"][nw]
+                ctx.violation("text-io-crash", "WriteToString / UpdateFromText aborts (exit %s) for struct %s, options %s: %s"
+                              % (res.rc, mt["top"], mt["opts"], res.log.strip().splitlines()[0][:300] if res.log.strip() else ""),
+                              dict(kind="struct", module=md["text"], struct=mt["top"], buffer=mt["raw"].hex(), options=mt["opts"],
+                                   instance=_jsonable(mt["inst"]), exit=res.rc, stderr=res.log[-1500:]), found_input=True)
+            else:
+                ctx.violation("struct-driver:" + res.stage, "module %s failed at %s: %s" % (md["name"], res.stage, res.log[-800:]),
+                              dict(kind="driver", module=md["text"], stage=res.stage, log=res.log[-3000:]), found_input=False)
             continue
         out = [l for l in res.lines if l.startswith("W ")]
         if len(out) != len(md["meta"]):
@@ -999,7 +1019,7 @@ def run(ctx):
                        "round trip: fields that other emitted fields depend on are not marked Skip",
                        "storage step of struct_roundtrip_partial (TryToWrite sequence in dependency order restores the fields) is a hypothesis; observed on the C++ side"]
     ctx.audit()
-    ctx.check_theorems("EmbossV.Text.Properties_C06", "Text/Properties_C06.v", expect_min=20)
+    ctx.check_theorems("EmbossV.Text.Properties_C06", "Text/Properties_C06.v", expect_min=28)
     gt, err = gen_table_probe(ctx)
     if gt is None:
         ctx.obligation("generator text_output table regenerated", False)
